@@ -11,7 +11,8 @@ Open Scope Z_scope.
 
 (* ---- the generalisation of a type accepts that type ---- *)
 (* Full statement; gen_ok t = what the Go constructors guarantee (int64 integer bounds, non-negative int64 sizes,
-   distinct Struct member names, FINITE float bounds — see the finding below) + no constructor outside the model
+   distinct Struct member names, float bounds that are order keys of floats, i.e. between the keys -InfF / InfF of
+   -Inf / +Inf) + no constructor outside the model
    + UniqueTypes drops only structurally equal members of a generalised Variant (dedup_exact). *)
 Definition C04_generalize_statement : Prop :=
   forall (rx : str -> str -> bool) (t : ty), gen_ok t = true -> asg rx true (generalize t) t = true.
@@ -30,18 +31,22 @@ Example C04_generalize_nonvacuous :
   let t := TStruct [([97%N], (TStringVal [97%N], TTuple [TInteger 1 5; TVariant [TStringVal [98%N]; TEnum false [[99%N]]; TFloat 0 5]] false 2 2));
                     ([98%N], (TOptional (TStringVal [98%N]), TNotUndef (TOptional (TArray (TPattern [[97%N]]) 1 3))))] in
   gen_ok t = true /\
-  generalize t = TStruct [([97%N], (TStringVal [97%N], TTuple [TInteger MinI MaxI; TVariant [TString; TEnum false []; TFloat (- MaxF) MaxF]] false 2 2));
+  generalize t = TStruct [([97%N], (TStringVal [97%N], TTuple [TInteger MinI MaxI; TVariant [TString; TEnum false []; TFloat (- InfF) InfF]] false 2 2));
                           ([98%N], (TOptional (TStringVal [98%N]), TNotUndef (TOptional (TArray (TPattern []) 0 MaxI))))] /\
   asg rx true (generalize t) t = true /\ asg rx true t (generalize t) = false.
 Proof. vm_compute. repeat split; reflexivity. Qed.
 
-(* open finding C04/nonfinite-float-generalize: the unbounded Float type is [-MaxFloat64, MaxFloat64] *)
-Example C04_nonfinite_float_generalize_refuted :
-  exists t, asg (fun _ _ => false) true (generalize t) t = false.
-Proof. exists (TFloat (MaxF + 1) (MaxF + 1)). vm_compute. reflexivity. Qed.
+(* fixed finding C04/nonfinite-float-generalize: the unbounded Float type reaches from -Inf to +Inf, so the
+   generalisation of the type of an infinity accepts it (it was [-MaxFloat64, MaxFloat64]) *)
+Example C04_nonfinite_float_generalize :
+  gen_ok (TFloat InfF InfF) = true /\ gen_ok (TFloat (- InfF) (- InfF)) = true /\
+  generalize (TFloat InfF InfF) = TFloat (- InfF) InfF /\
+  asg (fun _ _ => false) true (generalize (TFloat InfF InfF)) (TFloat InfF InfF) = true /\
+  asg (fun _ _ => false) true (generalize (TFloat (- InfF) (- InfF))) (TFloat (- InfF) (- InfF)) = true.
+Proof. vm_compute. repeat split; reflexivity. Qed.
 
 (* ---- every value is an instance of its detailed type ---- *)
-(* dv_ok v: no NaN (finding), nothing outside the model, string hash keys pairwise different, a type used as a
+(* dv_ok v: nothing outside the model, string hash keys pairwise different, a type used as a
    value accepts itself (in the code: the pointer shortcut a == b of GuardedIsAssignable; C03 reflexivity), and
    UniqueTypes drops only structurally equal detailed key/value types (dedup_exact) — `_partial` for the last
    two: the general statement needs reflexivity of assignability (C03) and that key-equal types are
@@ -64,11 +69,21 @@ Example C04_detailed_nonvacuous :
   inst rx true (infer_detailed rx v) v = true.
 Proof. vm_compute. repeat split; reflexivity. Qed.
 
-(* open finding C04/nonfinite-float-infer: NaN is not an instance of its inferred type (Float[NaN,NaN], outside
-   the order keys of the model: TOther) *)
-Example C04_nonfinite_float_infer_refuted :
-  exists v, inst (fun _ _ => false) true (infer (fun _ _ => false) v) v = false.
-Proof. exists VNaN. vm_compute. reflexivity. Qed.
+(* fixed findings C04/nonfinite-float-infer, -detailed: NaN infers the unbounded Float type, which - and only which -
+   has it as an instance; the infinities are instances of their types and of Float (it was Float[NaN, NaN], which
+   contains nothing) *)
+Example C04_nonfinite_float_infer :
+  let rx := fun _ _ => false in
+  let v := VArr [VArr [VNaN; VFloat InfF; VFloat (- InfF)]; VArr [VFloat 0]; VArr [VNaN]] in
+  iv_ok rx v = true /\ dv_ok rx v = true /\ cv_ok rx v = true /\
+  infer rx VNaN = TFloat (- InfF) InfF /\ inst rx true (infer rx VNaN) VNaN = true /\
+  inst rx true (TFloat (- InfF) 0) VNaN = false /\ inst rx true (TFloat InfF InfF) VNaN = false /\
+  infer rx v = TArray (TArray (TFloat (- InfF) InfF) 1 3) 3 3 /\
+  inst rx true (infer rx v) v = true /\ inst rx true (infer_detailed rx v) v = true /\
+  inst rx true (infer_detailed rx (VHash [(VStr [97%N], VNaN)])) (VHash [(VStr [97%N], VNaN)]) = true /\
+  inst rx true (TFloat (- InfF) InfF) (VFloat InfF) = true /\ inst rx true (TFloat 0 InfF) (VFloat InfF) = true /\
+  asg rx true (TArray TScalarData 0 MaxI) (infer_detailed rx (VArr [VNaN; VFloat InfF])) = true.
+Proof. vm_compute. repeat split; reflexivity. Qed.
 
 (* ---- a type that accepts the detailed type of a value has the value as an instance ---- *)
 (* The full statement is this one with vals = all values and excl = no exclusion. *)
@@ -105,7 +120,8 @@ Proof.
 Qed.
 
 (* ---- conversely, for values without undef-valued hash entry ---- *)
-(* cv_ok v = dv_ok v + no undef-valued hash entry (the exclusion the property names) + finite floats (finding);
+(* cv_ok v = dv_ok v + no undef-valued hash entry (the exclusion the property names) + float values that are order
+   keys of floats (between the keys of -Inf and +Inf: the infinities and NaN are inside the theorem);
    cwf T = Struct types as the constructors build them + no Tuple with more element types than its minimum size
    (open finding C04/tuple-slots-beyond-size). *)
 Theorem C04_detailed_complete_partial :
@@ -189,7 +205,7 @@ Qed.
 
 (* ---- every value is an instance of its inferred (generic) type ---- *)
 (* iv_ok v: first order (no type used as a value inside: an array of types is an instance of Type[common ...] only
-   by transitivity of assignability, C03), no NaN (finding), and no alias Data / RichData at any step of the fold
+   by transitivity of assignability, C03), and no alias Data / RichData at any step of the fold
    (the aliases are not constructors of `ty`: missing constructor TAlias) — hence `_partial`.  The inferred type of
    a collection is a fold of commonType; the proof shows that on the types inference produces commonType is a
    semantic upper bound (C04_common_covers). *)
